@@ -195,3 +195,11 @@ func hashInts(h uint64, vs []int) uint64 {
 	}
 	return h
 }
+
+// abbr prints a sequence; long ones (the big-size engines) as head ... tail.
+func abbr[T any](s []T) string {
+	if len(s) <= 80 {
+		return fmt.Sprint(s)
+	}
+	return fmt.Sprintf("[%d elements: %v ... %v]", len(s), s[:12], s[len(s)-6:])
+}
